@@ -204,6 +204,45 @@ def audit(layout, out):
                 fh.write(json.dumps(ev) + "\n")
 
 
+def elem_audit(layout, out):
+    """perturb one member of one element of a persisted array (a variational configuration, a particle) on a copy: the comparison
+    must report it, only that array's stream field may change, and the value must survive a round trip"""
+    VC = ["order", "index", "testparticle", "index_1st_order_a", "index_1st_order_b", "_lrescale"]
+    PM = ["x", "y", "z", "vx", "vy", "vz", "m", "r", "last_collision", "hash"]
+    with open(out, "a") as fh:
+        for stname in ("variational", "variational2", "megno", "whfast_unsync", "collided"):
+            A = states.make(stname)
+            intern = P.Interner()
+            ra = records(A, intern)
+            targets = [("var_config", c, m) for c in range(A.N_var_config) for m in VC] + [("particles", A.N - 1, m) for m in PM] + [("particles", 0, "m")]
+            for arr, idx, mem in targets:
+                ev = {"state": stname, "field": "%s[%d].%s" % (arr, idx, mem.lstrip("_")), "array": arr, "elem": True}
+                with warnings.catch_warnings():
+                    warnings.simplefilter("ignore")
+                    B = A.copy()
+                    reattach(A, B, layout)
+                    obj = (B.var_config if arr == "var_config" else B.particles)[idx]
+                    old = getattr(obj, mem)
+                    if hasattr(old, "value"):          # particle hash is a c_uint32
+                        old = old.value
+                    newv = (old + 1) if isinstance(old, int) else (old * 1.5 + 0.25)
+                    setattr(obj, mem, newv)
+                    ev["reported"] = bool(cdiff(A, B))
+                    ev["reported_py"] = not (A == B)
+                    rb = records(B, intern)
+                    ev["changed"] = sorted({P.name_of_rank(x[0]) for x, y in zip(ra, rb) if x != y}) if len(ra) == len(rb) else ["<length>"]
+                    try:
+                        C = pickle.loads(pickle.dumps(B))
+                        reattach(B, C, layout)
+                        back = getattr((C.var_config if arr == "var_config" else C.particles)[idx], mem)
+                        ev["readback_ok"] = getattr(back, "value", back) == newv
+                        ev["roundtrip_equal"] = not bool(cdiff(B, C))
+                        ev["roundtrip_stream_equal"] = records(C, intern) == rb
+                    except Exception as e:   # noqa
+                        ev["error"] = "%s: %s" % (type(e).__name__, str(e)[:80])
+                fh.write(json.dumps(ev) + "\n")
+
+
 def state_checks(out, layout):
     tmp = os.path.dirname(out)
     with open(out, "w") as fh:
@@ -242,5 +281,6 @@ if __name__ == "__main__":
         replay_behaviours(behs, sys.argv[3], int(sys.argv[4]), layout, os.path.dirname(sys.argv[3]))
     elif mode == "audit":
         audit(json.load(open(sys.argv[2])), sys.argv[3])
+        elem_audit(json.load(open(sys.argv[2])), sys.argv[3])
     elif mode == "states":
         state_checks(sys.argv[2], json.load(open(sys.argv[3])))
